@@ -35,13 +35,13 @@ def judge(tp, s):
 
 
 def route(tp, kind, s):
-    if simlib.f16_shape(s):
-        return "F16"
-    # NARROW match for F15: the program sends the top-level process's own pid (`&.` outside any
+    if simlib.f71_shape(s):
+        return "F71c04"
+    # NARROW match for F70: the program sends the top-level process's own pid (`&.` outside any
     # spawned function) and the only symptom is that the result is never delivered
     src = str(tp["src"])
     if kind == "hang" and tp.get("corpus") and "&. echo, !#'int" in src and "echo = @#{ !#(@'int)" in src and not s.panics and not s.errs:
-        return "F15"
+        return "F70"
     return None
 
 
@@ -51,7 +51,7 @@ def run(ctx):
     if not exe:
         return
     runner = SimRunner(ctx, exe)
-    nscen = ctx.n(160, 2000)
+    nscen = ctx.n(250, 2000)
     nsched = ctx.n(60, 500)
     scenarios = []
     while len(scenarios) < nscen:
